@@ -106,5 +106,4 @@ Proof.
   - split; [repeat constructor; lia|]. split; [cbn; lia|]. split; vm_compute; reflexivity.
   - split; [repeat constructor; lia|]. split; [cbn; lia|]. split; vm_compute; reflexivity.
   - repeat constructor; try (vm_compute; discriminate); try (cbn; exact I); try (cbn; repeat constructor; lia).
-  - unfold text_of. cbn. discriminate.
 Qed.
